@@ -15,6 +15,10 @@ import RbV.Thm.GenSrcOcc
 import RbV.Lemmas.SaisWidth
 import RbV.Gen.SaisWidth
 import RbV.Thm.GenSrcSus
+import RbV.Thm.GenSrcLcp
+import RbV.Thm.GenSrcTransform
+import RbV.Thm.GenSrcPosTypes
+import RbV.Thm.GenSrcSaisBuckets
 /-!
 # C03 — suffix array = sorted permutation of all suffixes; LCP; shortest unique substrings
 
@@ -585,5 +589,178 @@ example : Gen.SrcSus.sus [7, 6, 3, 0, 4, 1, 5, 2] (lcpRef [71, 67, 84, 71, 67, 8
 -- the one-symbol text `$`: `max(-1, -1) as usize` is `usize::MAX`, `1 + …` overflows (panic with overflow checks; the
 -- mirror model, which reads `as usize` of a negative value as 0, says `[some 1]`) — outside `n ≥ 2`
 example : Gen.SrcSus.sus [0] [-1, -1] = Rs.Res.panic := by decide
+
+/-! ### translated text of `lcp` (Kasai; `RbV/Gen/SrcLcp.lean`, regenerated on every run; builder gensa, `tools/rs2lean_gensa.py`) -/
+
+/-- translated `lcp` = mirror model `Kasai.kasai` (inverse-permutation loop, `while` extension, `lcp.set(rank[p], l)`, `l - 1`)
+for every permutation `sa` of the positions of a non-empty text that starts with `n - 1`: no index out of range, no
+underflow of `rank[p] - 1`, the loop fuel `n + 1` suffices, `l as isize` is exact -/
+theorem lcp_source_eq_model (t sa : List Nat) (hperm : sa.Perm (List.range t.length))
+    (hhead : sa.head? = some (t.length - 1)) (hn : 0 < t.length) (hsz : t.length + 1 < 2 ^ 63) :
+    Gen.SrcLcp.lcp t sa = Rs.Res.ok (Kasai.kasai t sa) :=
+  Thm.GenSrcLcp.lcp_eq_model t sa hperm hhead hn hsz
+
+/-- **the translated `lcp` on every accepted suffix array of a single-sentinel text returns `lcpRef`** (length `n + 1`, `-1` at
+both ends, longest common prefix of neighbouring suffixes inside: `lcpRef_spec`) — no mirror model left between the text of
+the function and the reference -/
+theorem lcp_source_exact (t sa : List Nat) (hc : checkSA t sa = true)
+    (hsingle : ∀ p, t[p]? = some (sentinelOf t) → p = t.length - 1)
+    (hmin : ∀ p, p < t.length → sentinelOf t ≤ t.getD p 0) (hn : 2 ≤ t.length) (hsz : t.length + 1 < 2 ^ 63) :
+    Gen.SrcLcp.lcp t sa = Rs.Res.ok (lcpRef t sa) :=
+  Thm.GenSrcLcp.lcp_source_exact t sa (Kasai.sorted_of_checkSA_single t sa hc hsingle hmin) (by omega) hsz
+
+/-- the translated `lcp` refuses a suffix array of another length (`assert_eq!`) -/
+theorem lcp_source_length_mismatch_panics (t sa : List Nat) (h : t.length ≠ sa.length) :
+    Gen.SrcLcp.lcp t sa = Rs.Res.panic :=
+  Thm.GenSrcLcp.lcp_length_mismatch_panics t sa h
+
+-- the translated code evaluated: `abab$`, and the doc test `GCTGCTA$` through translated `lcp` then translated `sus`
+example : Gen.SrcLcp.lcp [1, 2, 1, 2, 0] [4, 2, 0, 3, 1] = Rs.Res.ok [-1, 0, 2, 0, 1, -1] := by decide
+example : (do let l ← Gen.SrcLcp.lcp [71, 67, 84, 71, 67, 84, 65, 36] [7, 6, 3, 0, 4, 1, 5, 2]
+              Gen.SrcSus.sus [7, 6, 3, 0, 4, 1, 5, 2] l)
+    = Rs.Res.ok [some 4, some 3, some 2, some 4, some 3, some 2, some 1, some 1] := by decide
+-- a first entry other than `n - 1`: `rank[p] - 1` underflows for the position of rank 0
+example : Gen.SrcLcp.lcp [1, 2, 0] [0, 2, 1] = Rs.Res.panic := by decide
+
+/-! ### translated text of `sentinel_count` and `transform_text` (`RbV/Gen/SrcTransform.lean`; builder gensa)
+
+`T` is read at a 64-bit unsigned type, `num_traits::cast::<usize, T>` as an abstract `castT` that is value-preserving below
+`alphabet.len() + sentinel_count` (hypothesis `hcast`; `sais_transform_width_fits` proves that bound for the type the width
+dispatch selects); `RankTransform::new` is the translated `Gen.SrcAlphabet.rankNew`.  The obligation is stated **modulo the
+freedom the property leaves** (`Transform.Ok`, `RbV/Lemmas/TransformSpec.lean`): which distinct ranks below all other symbols
+the sentinel occurrences get is not fixed, only that they are pairwise distinct and the final one is least. -/
+
+/-- translated `sentinel_count`: the `assert!` passes when no symbol is below the last one, the fold counts its occurrences -/
+theorem sentinel_count_source_eq_model (t : List Nat) (hne : t ≠ []) (hmin : ∀ a ∈ t, sentinelOf t ≤ a)
+    (hsz : t.length < 2 ^ 64) : Gen.SrcTransform.sentinel_count t = Rs.Res.ok (t.count (sentinelOf t)) :=
+  Thm.GenSrcTransform.sentinel_count_eq_model t hne hmin hsz
+
+/-- … and a text with a symbol below its last one is refused -/
+theorem sentinel_count_source_refuses (t : List Nat) (hne : t ≠ []) (a : Nat) (ha : a ∈ t) (hlt : a < sentinelOf t) :
+    Gen.SrcTransform.sentinel_count t = Rs.Res.panic :=
+  Thm.GenSrcTransform.sentinel_count_unsorted_panics t hne a ha hlt
+
+/-- **translated `transform_text` = the mirror model modulo the sentinel order**: on the alphabet of the text and its
+sentinel count it does not panic and returns a text `tt` of the same length in which every non-sentinel symbol is
+`rank + (sentinel_count − 1)` (as in `Transform.transformText`) and the sentinel occurrences carry pairwise distinct values
+below `sentinel_count`, the final one the least (`Transform.Ok`; the mirror model is the instance "decreasing from left to
+right": `Transform.ok_transformText`) -/
+theorem transform_text_source_eq_model (castT : Nat → Option Nat) (t : List Nat) (hne : t ≠ []) (hb : ∀ c ∈ t, c < 256)
+    (hsz : t.length + 256 < 2 ^ 64)
+    (hcast : ∀ x, x < (Alpha.mk t).length + t.count (sentinelOf t) → castT x = some x) :
+    ∃ tt, Gen.SrcTransform.transform_text castT t (Alpha.mk t) (t.count (sentinelOf t)) = Rs.Res.ok tt ∧ Transform.Ok t tt :=
+  Thm.GenSrcTransform.transform_text_spec castT t hne hb hsz hcast
+
+/-- **what `Sais::construct` and the property need of it** (the corollary `sais_transform_text` states for the mirror):
+the first three statements of `suffix_array` — translated `Alphabet::new`, `sentinel_count`, `transform_text` — hand SA-IS
+a text `tt` it accepts (`Sais.Valid`: last symbol the unique minimum, dense alphabet), and every sorted suffix permutation
+of `tt` is accepted by `checkSA` for the byte text -/
+theorem transform_text_source_feeds_sais (castT : Nat → Option Nat) (t : List Nat) (hne : t ≠ []) (hb : ∀ c ∈ t, c < 256)
+    (hmin : ∀ p, p < t.length → sentinelOf t ≤ t.getD p 0) (hsz : t.length + 256 < 2 ^ 64)
+    (hcast : ∀ x, x < (Alpha.mk t).length + t.count (sentinelOf t) → castT x = some x) :
+    ∃ tt, (do let alphabet ← Gen.SrcAlphabet.alphabetNew t
+              let sc ← Gen.SrcTransform.sentinel_count t
+              Gen.SrcTransform.transform_text castT t alphabet sc) = Rs.Res.ok tt ∧
+      Sais.Valid tt ∧ tt.length = t.length ∧ ∀ sa, SuffixSorted tt sa → checkSA t sa = true := by
+  obtain ⟨tt, h1, h2⟩ := Thm.GenSrcTransform.transform_text_spec castT t hne hb hsz hcast
+  have hmin' : ∀ a ∈ t, sentinelOf t ≤ a := by
+    intro a ha
+    obtain ⟨i, hi, he⟩ := Sais.exists_getD_of_mem t a ha
+    rw [← he]; exact hmin i hi
+  refine ⟨tt, ?_, h2.valid hne hmin, h2.len, fun sa hs => (checkSA_iff t sa hne).mpr (h2.isSA hne hmin sa hs)⟩
+  rw [Thm.GenSrcAlphabet.alphabetNew_eq_model t hb, Thm.GenSrcTransform.sentinel_count_eq_model t hne hmin' (by omega)]
+  exact h1
+
+-- `CA$` evaluated through the translated code (`cast` into `u8`); with one sentinel the sentinel order is forced (the
+-- evaluation of a multi-sentinel text, whose numbers depend on the order chosen, is in `Thm/GenSrcTransformModel.lean`)
+example : (do let alphabet ← Gen.SrcAlphabet.alphabetNew [67, 65, 36]
+              let sc ← Gen.SrcTransform.sentinel_count [67, 65, 36]
+              Gen.SrcTransform.transform_text (fun x => if x < 256 then some x else none) [67, 65, 36] alphabet sc)
+    = Rs.Res.ok [2, 1, 0] := by decide
+example : Transform.Ok [65, 36, 67, 36, 65, 36] [3, 2, 4, 1, 3, 0] := Transform.ok_transformText _ (by decide)
+example : Transform.Ok [65, 36, 67, 36, 65, 36] [3, 1, 4, 2, 3, 0] := Transform.ok_transformTextUp _ (by decide)
+-- a text whose last symbol is not its smallest is refused by the `assert!`; a cast that does not fit panics
+example : Gen.SrcTransform.sentinel_count [36, 65] = Rs.Res.panic := by decide
+example : Gen.SrcTransform.transform_text (fun x => if x < 2 then some x else none) [65, 67, 36] (Alpha.mk [65, 67, 36]) 1
+    = Rs.Res.panic := by decide
+
+/-! ### translated text of `PosTypes::{new, is_s_pos, is_l_pos, is_lms_pos}` (`RbV/Gen/SrcPosTypes.lean`; builder gensa)
+
+The `BitVec` is read as the vector of its bits (`new_fill`, `set_bit`, `get_bit` with bounds checks), `T` at `u64`. -/
+
+/-- translated `PosTypes::new` = the mirror model `PosTypes.posTypes` (the L/S typing SA-IS's model and proofs use) on every
+non-empty text: the right-to-left loop never reads or writes out of range -/
+theorem postypes_new_source_eq_model (t : List Nat) (hne : t ≠ []) (hsz : t.length < 2 ^ 64) :
+    Gen.SrcPosTypes.new t = Rs.Res.ok (PosTypes.posTypes t) :=
+  Thm.GenSrcPosTypes.new_eq_model t hne hsz
+
+/-- **translated `PosTypes::new` is correct**: in a text whose last symbol occurs nowhere else the translated function
+marks a position S exactly when its suffix is smaller than the next one (composition with `sais_postypes_partial`) -/
+theorem postypes_new_source_correct (t : List Nat) (hne : t ≠ []) (hsz : t.length < 2 ^ 64)
+    (hu : ∀ i, i + 1 < t.length → t.getD i 0 ≠ t.getD (t.length - 1) 0) :
+    ∃ ty, Gen.SrcPosTypes.new t = Rs.Res.ok ty ∧ ∀ p, p < t.length →
+      ty[p]? = some (decide (lexLt (t.drop p) (t.drop (p + 1))) || decide (p + 1 = t.length)) :=
+  ⟨_, Thm.GenSrcPosTypes.new_eq_model t hne hsz, fun p hp => PosTypes.posTypes_spec t hu p hp⟩
+
+/-- translated `is_s_pos`, `is_l_pos`, `is_lms_pos` = the model's predicates at every position of the bit vector (beyond it
+the bv crate panics; the model's totalised predicates say `false`) -/
+theorem postypes_predicates_source_eq_model (ty : List Bool) (p : Nat) (hp : p < ty.length) :
+    Gen.SrcPosTypes.is_s_pos ty p = Rs.Res.ok (Sais.isS ty p) ∧ Gen.SrcPosTypes.is_l_pos ty p = Rs.Res.ok (Sais.isL ty p) ∧
+      Gen.SrcPosTypes.is_lms_pos ty p = Rs.Res.ok (Sais.isLms ty p) :=
+  ⟨Thm.GenSrcPosTypes.is_s_pos_eq_model ty p hp, Thm.GenSrcPosTypes.is_l_pos_eq_model ty p hp,
+    Thm.GenSrcPosTypes.is_lms_pos_eq_model ty p hp⟩
+
+-- the text of the repo's `test_pos_types` through the translated code: its LMS positions
+example : (do let ty ← Gen.SrcPosTypes.new [71, 67, 67, 84, 84, 65, 65, 67, 65, 84, 84, 65, 84, 84, 65, 67, 71, 67, 67, 84, 65, 36]
+              (List.range 22).filterM (Gen.SrcPosTypes.is_lms_pos ty)) = Rs.Res.ok [1, 5, 8, 11, 14, 17, 21] := by decide
+example : Gen.SrcPosTypes.new [] = Rs.Res.panic := by decide
+example : Gen.SrcPosTypes.is_lms_pos [false, true] 2 = Rs.Res.panic := by decide
+
+/-! ### translated text of `Sais::init_bucket_start`, `Sais::init_bucket_end` (`RbV/Gen/SrcSaisBuckets.lean`; builder gensa)
+
+`bucket_sizes` is the `Rs.VecMap` (`contains_key`, `*get_mut(k).unwrap() += 1`, `values()` in ascending key order:
+`RbV/Basic/RsSemGensa.lean`), `cast::<T, usize>` an abstract `castU` that preserves the symbols of the text. -/
+
+/-- translated `init_bucket_start` = the mirror model `Sais.initBucketStart` on **every** text (prefix sums of the counts of
+the occurring symbols in ascending order; the `VecMap` afterwards holds `count` for every occurring symbol and nothing
+else): no missing key at `get_mut(..).unwrap()`, no overflow -/
+theorem init_bucket_start_source_eq_model (castU : Nat → Option Nat) (bs0 : Rs.VecMap) (bst0 t : List Nat)
+    (hc : ∀ c ∈ t, castU c = some c) (hsz : t.length < 2 ^ 64) :
+    ∃ m, Gen.SrcSaisBuckets.init_bucket_start castU bs0 bst0 t = Rs.Res.ok (m, Sais.initBucketStart t) ∧
+      ∀ k, Rs.VecMap.get m k = Sais.cOpt t k :=
+  Thm.GenSrcSaisBuckets.init_bucket_start_spec castU bs0 bst0 t hc hsz
+
+/-- translated `init_bucket_end` = the mirror model `Sais.initBucketEnd` when `bucket_start` is non-empty, its later entries
+are positive and the text is non-empty — exactly what keeps `&bucket_start[1..]`, `r - 1`, `text.len() - 1` from panicking -/
+theorem init_bucket_end_source_eq_model (bst be0 t : List Nat) (hne : t ≠ []) (hb : bst ≠ [])
+    (hpos : ∀ r ∈ bst.drop 1, 1 ≤ r) :
+    Gen.SrcSaisBuckets.init_bucket_end bst be0 t = Rs.Res.ok (Sais.initBucketEnd bst t.length) :=
+  Thm.GenSrcSaisBuckets.init_bucket_end_spec bst be0 t hne hb hpos
+
+/-- **the two translated functions on a text SA-IS accepts** (`Sais.Valid`): `bucket_start[c]` = number of symbols below `c`,
+`bucket_end[c]` = (number of symbols `≤ c`) − 1 — `bucket_start_spec` / `bucket_end_spec` for the code itself -/
+theorem buckets_source_correct (castU : Nat → Option Nat) (bs0 : Rs.VecMap) (bst0 be0 t : List Nat) (hv : Sais.Valid t)
+    (hc : ∀ c ∈ t, castU c = some c) (hsz : t.length < 2 ^ 64) :
+    ∃ m, (do let (m, bst) ← Gen.SrcSaisBuckets.init_bucket_start castU bs0 bst0 t
+             let be ← Gen.SrcSaisBuckets.init_bucket_end bst be0 t
+             pure (m, bst, be)) =
+      Rs.Res.ok (m, (List.range (Sais.maxSucc t)).map (Sais.cntLt t),
+        (List.range (Sais.maxSucc t)).map (fun c => Sais.cntLt t (c + 1) - 1)) := by
+  obtain ⟨m, h1, _⟩ := Thm.GenSrcSaisBuckets.init_bucket_start_spec castU bs0 bst0 t hc hsz
+  have hne : t ≠ [] := by intro e; have := hv.pos; rw [e] at this; simp at this
+  refine ⟨m, ?_⟩
+  rw [h1]
+  simp only [Rs.Res.ok_bind]
+  rw [Thm.GenSrcSaisBuckets.init_bucket_end_valid be0 t hv]
+  simp only [Rs.Res.ok_bind, Rs.Res.pure_eq_ok]
+  rw [Sais.initBucketEnd_eq t hne hv.dense, Sais.initBucketStart_eq t hv.dense]
+
+-- the integer text of the doc test of `suffix_array_int` through the translated code
+example : (do let (m, bst) ← Gen.SrcSaisBuckets.init_bucket_start some [] [] [3, 2, 2, 4, 4, 1, 2, 1, 0]
+              let be ← Gen.SrcSaisBuckets.init_bucket_end bst [] [3, 2, 2, 4, 4, 1, 2, 1, 0]
+              pure (bst, be)) = Rs.Res.ok ([0, 1, 3, 6, 7], [0, 2, 5, 6, 8]) := by decide
+-- a symbol that does not fit `usize` (`cast(c).unwrap()`), and the empty text (`&bucket_start[1..]`), panic
+example : Gen.SrcSaisBuckets.init_bucket_start (fun _ => none) [] [] [1, 0] = Rs.Res.panic := by decide
+example : Gen.SrcSaisBuckets.init_bucket_end [] [] [] = Rs.Res.panic := by decide
 
 end RbV.Thm.C03
